@@ -5,7 +5,12 @@ into Gen/Languages.lean; Props/C15.lean proves (by a decidable checker with a so
 evaluated in the kernel on the regenerated patterns) that no reachable configuration has two
 applicable transitions. Correspondence: the real `match` on every pattern over all sequences
 of abstract tokens up to a bound (every token class the pattern's predicates can distinguish)
-against the model; oracle: no sequence raises the ambiguity error."""
+against the model; oracle: no sequence raises the ambiguity error.
+
+Configuration search (`reach`): breadth-first over (DFA state, depth class of every Balanced counter) with the real
+Pattern.consume, every abstract token (kind x distinguished value x sub-type of the kind) from every configuration,
+plus a nesting ladder from every configuration with an open group; an ambiguity comes with the shortest token path
+that reaches it.  It needs neither the translator nor the model, so it also runs when those refuse a changed pattern."""
 import itertools
 import os
 import sys
@@ -84,7 +89,7 @@ def alphabet(expr_ser):
     return sorted(toks)
 
 
-def mk_token(kind, val, i, rnd=None):
+def mk_token(kind, val, i, rnd=None, pick=None):
     """a real Token of the given class; with `rnd`, of a random SUB-type of that class (the model
     only knows the class: `Token.is_*` are subtree tests, so sub-types must not matter - e.g. the
     TypeScript lexer emits `Keyword.Type` for any word after a colon, seeded change C15-4)"""
@@ -97,7 +102,12 @@ def mk_token(kind, val, i, rnd=None):
            3: [Punctuation, Punctuation.Marker],
            4: [Operator, Operator.Word]}[kind]
     tt = rnd.choice(sub) if rnd is not None else sub[0]
+    if pick is not None:
+        tt = sub[pick % len(sub)]
     return Token(Location(1, i + 1), tt, val)
+
+
+N_SUB = {0: 7, 1: 7, 2: 9, 3: 2, 4: 2}
 
 
 def real_run(args):
@@ -110,7 +120,7 @@ def real_run(args):
         rs = []
         # once with the root type of every class, once with random sub-types (seeded by the sequence)
         for rnd in (None, random.Random(repr(seq))):
-            toks = [mk_token(k, v, i, rnd) for i, (k, v) in enumerate(seq)]
+            toks = [mk_token(t[0], t[1], i, rnd, t[2] if len(t) > 2 else None) for i, t in enumerate(seq)]
             try:
                 ps = matcher.find_all(expr, toks)
                 r = "ok %d" % len(ps) + "".join(" %d %d %d" % (p.start, p.end, len(p.tokens)) for p in ps)
@@ -119,6 +129,156 @@ def real_run(args):
             rs.append(r)
         out.append(rs[0] if rs[0] == rs[1] else rs[1] + "   [sub-typed tokens; root-typed: " + rs[0] + "]")
     return out
+
+
+# ------------------------------------------------------------------ reachability over configurations
+# The property is about every reachable (automaton state, nesting depth class) x every token class.
+# Bounded-length enumeration reaches only the configurations a few tokens away from the start state
+# (and with the alphabet of a pattern that distinguishes many values, only length 2-3).  This search
+# walks the configuration graph itself with the REAL Pattern.consume: a configuration is (identity of
+# the current DFA state, the integer counters (Balanced.depth, capped) of the attempt's private
+# predicate copies); from every configuration every abstract token is tried once; an ambiguity is
+# reported with the token path that reaches it.  No translator / model is involved.
+
+DEPTH_CAP = 3     # depth classes 0, 1, 2, >= 3
+
+
+def walk_constants(e, out=None, seen=None):
+    """every string constant mentioned by the REAL expression objects (operators and predicates)"""
+    out = set() if out is None else out
+    seen = set() if seen is None else seen
+    if id(e) in seen:
+        return out
+    seen.add(id(e))
+    if isinstance(e, str):
+        out.add(e)
+    elif isinstance(e, (list, tuple)):
+        for x in e:
+            walk_constants(x, out, seen)
+    elif hasattr(e, "__dict__"):
+        for v in vars(e).values():
+            walk_constants(v, out, seen)
+    return out
+
+
+def alphabet_of(expr):
+    toks = {(2, "f"), (0, "x"), (3, "("), (3, ")"), (1, "kw?"), (4, "op?")}
+    for text in walk_constants(expr):
+        for kind in (0, 1, 2, 3, 4):
+            toks.add((kind, text))
+    return sorted(toks)
+
+
+def _counters(p, out, seen):
+    """the integer attributes of a predicate object, recursively (bools and the rest ignored)"""
+    if id(p) in seen:
+        return
+    seen.add(id(p))
+    if hasattr(p, "__dict__"):
+        for k in sorted(vars(p)):
+            v = vars(p)[k]
+            if isinstance(v, bool):
+                continue
+            if isinstance(v, int):
+                out.append(max(-1, min(v, DEPTH_CAP)))
+            elif hasattr(v, "__dict__"):
+                _counters(v, out, seen)
+
+
+def config_key(pat):
+    cs = []
+    for pid in sorted(pat.predicate_map):
+        out = []
+        _counters(pat.predicate_map[pid], out, set())
+        if any(out):
+            cs.append((pid, tuple(out)))
+    return (id(pat.state), tuple(cs))
+
+
+def new_pattern(expr):
+    from codelimit.common.gsm.Expression import expression_to_nfa, nfa_to_dfa
+    from codelimit.common.gsm.Pattern import Pattern
+    dfa = nfa_to_dfa(expression_to_nfa(expr))
+    return lambda: Pattern(0, dfa)
+
+
+def run_path(fresh, toks):
+    """-> (pattern or None when the attempt died, error or None)"""
+    pat = fresh()
+    for t in toks:
+        try:
+            if not pat.consume(t):
+                return None, None
+        except Exception as e:  # noqa
+            return None, e
+    return pat, None
+
+
+def reach(idx, thorough=False, max_configs=4000):
+    """-> {"configs", "steps", "max_depth_class", "ambiguous": [token path], "errors": [...]}"""
+    expr = captured()[idx][2]
+    alpha = alphabet_of(expr)
+    fresh = new_pattern(expr)
+    # the token classes are sub-trees of token types: every sub-type is a possible token of its own
+    alpha = [(k, v) for (k, v) in alpha] + [(k, v, j) for (k, v) in alpha for j in range(1, N_SUB[k])]
+    toks = {a: mk_token(a[0], a[1], 0, None, a[2] if len(a) > 2 else None) for a in alpha}
+    root = fresh()
+    seen = {config_key(root): []}
+    queue = [[]]
+    amb, errs, steps, deep = [], [], 0, 0
+    while queue and len(seen) < max_configs:
+        path = queue.pop(0)
+        for a in alpha:
+            steps += 1
+            pat, err = run_path(fresh, [toks[x] for x in path] + [toks[a]])
+            if err is not None:
+                (amb if "Multiple transitions" in str(err) else errs).append((path + [a], "err %d" % engine_real.err_code(err)))
+                continue
+            if pat is None:
+                continue
+            k = config_key(pat)
+            if k not in seen:
+                seen[k] = path + [a]
+                queue.append(path + [a])
+                deep = max([deep] + [c for (_, cs) in k[1] for c in cs])
+    # ladder: from every configuration with an open group, nest 10^k deeper and try every token again
+    lefts = [a for a in alpha if a[0] == 3 and a[1] in ("(", "[", "{", "<")]
+    rungs = (10, 100, 1000, 10000) if thorough else (10, 100)
+    for k, path in list(seen.items()):
+        if not k[1]:
+            continue
+        for rung in rungs:
+            for l in lefts[:1]:
+                base, err = run_path(fresh, [toks[x] for x in path] + [toks[l]] * rung)
+                if base is None:
+                    continue
+                for a in alpha:
+                    steps += 1
+                    pat = _clone(base)
+                    try:
+                        pat.consume(toks[a])
+                    except Exception as e:  # noqa
+                        (amb if "Multiple transitions" in str(e) else errs).append((path + [l] * rung + [a], "err %d" % engine_real.err_code(e)))
+    amb.sort(key=lambda pa: (len(pa[0]), sum(len(t) for t in pa[0])))
+    return {"configs": len(seen), "steps": steps, "max_depth_class": deep, "alphabet": len(alpha), "classes": len([a for a in alpha if len(a) == 2]),
+            "ambiguous": amb[:5], "errors": errs[:5], "paths": list(seen.values())}
+
+
+def _clone(pat):
+    import copy
+    new = copy.copy(pat)
+    new.tokens = list(pat.tokens)
+    new.predicate_map = {k: copy.deepcopy(v) for k, v in pat.predicate_map.items()}
+    return new
+
+
+def _reach_job(args):
+    idx, thorough = args
+    try:
+        return reach(idx, thorough)
+    except Exception as e:  # noqa
+        import traceback
+        return {"crash": "%s: %s" % (type(e).__name__, e), "trace": traceback.format_exc()[-800:]}
 
 
 def sequences(ctx, alpha, salt):
@@ -140,14 +300,40 @@ def correspond(ctx):
     samples = []
     dist = {}
     jobs = []
-    for idx, (lang, role, expr) in enumerate(caps):
-        ser = patterns.expr(expr, [])[0]
-        alpha = alphabet(ser)
-        seqs, ln = sequences(ctx, alpha, "%s/%s" % (lang, role))
-        dist["%s/%s" % (lang, role)] = {"alphabet": len(alpha), "exhaustive_len": ln, "sequences": len(seqs)}
-        reqs = ["ftok %s %d %s" % (ser, len(s), " ".join("%d %s" % (k, scan_real.sstr(v)) for (k, v) in s)) for s in seqs]
-        jobs.append((idx, lang, role, seqs, reqs))
     with ProcessPoolExecutor(max_workers=16) as ex:
+        # 1. reachability over (state, depth class) x token class with the real Pattern.consume (no model involved)
+        reached = list(ex.map(_reach_job, [(idx, ctx.thorough) for idx in range(len(caps))]))
+        for idx, ((lang, role, expr), R) in enumerate(zip(caps, reached)):
+            name = "%s/%s" % (lang, role)
+            if "crash" in R:
+                # the search reads Pattern.state / .predicate_map and calls expression_to_nfa / nfa_to_dfa itself: when a
+                # rewrite renames those it cannot run; that is no evidence against the code (the enumeration below still
+                # drives the public find_all), so it is recorded, not alarmed
+                dist[name] = {"reach": "not run: " + R["crash"]}
+                ctx.notes.append("C15 configuration search not run for %s: %s" % (name, R["crash"]))
+                R["paths"] = []
+                continue
+            evals += R["steps"]
+            dist[name] = {"reach_configs": R["configs"], "reach_steps": R["steps"], "reach_depth_class": R["max_depth_class"], "reach_tokens": R["alphabet"], "reach_token_classes": R["classes"]}
+            for (path, obs) in R["ambiguous"][:2] + R["errors"][:2]:
+                fails.append({"input": {"stream": "tokens", "language": lang, "role": role, "index": idx, "tokens": [list(t) for t in path]},
+                              "found_by": "configuration search (state x depth class x token class)", "observed": obs, "required": "no exception (at most one transition applies)"})
+        # 2. model against real find_all: bounded enumeration + random + one step from every reached configuration
+        for idx, (lang, role, expr) in enumerate(caps):
+            name = "%s/%s" % (lang, role)
+            try:
+                ser = patterns.expr(expr, [])[0]
+            except patterns.Refuse as e:
+                dis.append({"stream": "find_all/" + name, "input": {"stream": "tokens", "language": lang, "role": role, "index": idx, "tokens": []},
+                            "model": "translator refuses: %s" % e, "impl": "n/a"})
+                continue
+            alpha = sorted(set(alphabet(ser)) | set(alphabet_of(expr)))
+            seqs, ln = sequences(ctx, alpha, name)
+            extra = [list(pth) + [a] for pth in reached[idx].get("paths", []) if pth for a in alpha]
+            seqs += extra
+            dist.setdefault(name, {}).update({"alphabet": len(alpha), "exhaustive_len": ln, "sequences": len(seqs), "from_reached_configurations": len(extra)})
+            reqs = ["ftok %s %d %s" % (ser, len(s), " ".join("%d %s" % (t[0], scan_real.sstr(t[1])) for t in s)) for s in seqs]
+            jobs.append((idx, lang, role, seqs, reqs))
         for (idx, lang, role, seqs, reqs) in jobs:
             model = common.run_driver_sharded(reqs)
             k = max(100, len(seqs) // 32)
@@ -158,7 +344,7 @@ def correspond(ctx):
                 inp = {"stream": "tokens", "language": lang, "role": role, "index": idx, "tokens": [list(t) for t in s]}
                 if m != i:
                     dis.append({"stream": "find_all/%s/%s" % (lang, role), "input": inp, "model": m, "impl": i})
-                if i.startswith("err"):
+                if "err" in i:
                     fails.append({"input": inp, "observed": i, "required": "no exception (at most one transition applies)"})
                 elif i != "ok 0":
                     nontrivial.add((idx, tuple(s)))
@@ -169,9 +355,10 @@ def correspond(ctx):
         evals += 1
         if r.startswith("err"):
             fails.append({"input": {"stream": "source", "language": lang, "code": code}, "observed": r, "required": "no exception"})
+    fails.sort(key=lambda f: len(f["input"].get("tokens", f["input"].get("code", ""))))
     return {
         "evaluations": evals, "distinct_nontrivial": len(nontrivial),
-        "rule": "for each of the %d shipped header / follow-up expressions: all sequences up to the stated length over the abstract tokens its predicates can distinguish (kind x distinguished values, plus identifier / other / parentheses), exhaustively, + random longer ones; non-trivial = distinct sequences with at least one match" % len(caps),
+        "rule": "for each of the %d shipped header / follow-up expressions: (1) configuration search with the real Pattern.consume: every reachable (automaton state, depth class 0,1,2,>=3 of every Balanced counter) x every abstract token (kind x distinguished value x every sub-type of the kind), plus from every configuration with an open group a ladder of %s further opening parentheses x every token; (2) against the model: all sequences up to the stated length over the abstract tokens its predicates can distinguish (kind x distinguished values, plus identifier / other / parentheses), exhaustively, + random longer ones + the path to every reached configuration extended by every token; non-trivial = distinct sequences with at least one match" % (len(caps), ctx.pick("10, 100", "10 .. 10^4")),
         "samples": samples[:6], "exhaustive": True, "distribution": dist,
         "disagreements": dis[:50], "oracle_failures": fails[:50],
         "generated_hashes": {"Gen/Languages.lean": _sha(os.path.join(common.LEAN, "CodeLimit", "Gen", "Languages.lean"))},
@@ -196,10 +383,17 @@ def search(ctx, hints):
     rnd = ctx.rng("search")
     t0 = time.time()
     for idx, (lang, role, expr) in enumerate(caps):
+        R = _reach_job((idx, True))
+        for (path, obs) in R.get("ambiguous", [])[:2]:
+            fails.append({"input": {"stream": "tokens", "language": lang, "role": role, "index": idx, "tokens": [list(t) for t in path]},
+                          "found_by": "configuration search", "observed": obs, "required": "no exception"})
+    if fails:
+        fails.sort(key=lambda f: len(str(f["input"])))
+        return fails[:10]
+    for idx, (lang, role, expr) in enumerate(caps):
         if time.time() - t0 > 150:        # time-boxed: the search supports the report, it is not the proof
             break
-        ser = patterns.expr(expr, [])[0]
-        alpha = alphabet(ser)
+        alpha = alphabet_of(expr)
         seqs = [list(s) for n in range(1, 6 if len(alpha) <= 9 else 4) for s in itertools.product(alpha, repeat=n)][:20000]
         for _ in range(3000):
             seqs.append([rnd.choice(alpha) for _ in range(rnd.randint(3, 14))])
